@@ -2315,6 +2315,9 @@ class sptensor:
         `S[1,1:10,1:10] = ttb.sptenrand((1,10,10),nonzeros=5).squeeze()`.
         """
         key = tt_index_to_int(key)
+        # A numpy number (what comes out of a numpy array) is a scalar like any other
+        if isinstance(value, (np.integer, np.floating)):
+            value = value.item()
         # TODO IndexError for value outside of indices
         # TODO Key error if item not in container
         # If empty sptensor and assignment is empty list or empty nparray
